@@ -292,4 +292,40 @@ MUTANTS = [
       "                Err(_) => return Ok(state),\n                Ok(new_state) => test_state = new_state,",
       "                Err(_) => return Err(()),\n                Ok(new_state) => test_state = new_state,",
       {"C02": "entailed"}),
+    M("c22-silent-drop-returns", ["C22"], "src/state/mod.rs",
+      """        for constraint in dropped.iter() {
+            // Constraints dropped as redundant leave the store like taken ones.
+            U::take_constraint(&mut self, constraint);
+        }
+""",
+      "        let _ = dropped;\n",
+      {"C22": "pairing"}),
+    M("c22-retain-outside", ["C22"], "src/state/constraint/store.rs",
+      "    pub fn is_empty(&self) -> bool {\n        self.0.is_empty()\n    }",
+      "    pub fn is_empty(&self) -> bool {\n        self.0.is_empty()\n    }\n\n    pub fn forget_disequalities(&mut self) {\n        self.0.retain(|c| c.downcast_ref::<DisequalityConstraint<U, E>>().is_none());\n    }",
+      {"C22": "no-silent-removal"}),
+    M("c22-second-doorway", ["C22"], "src/state/mod.rs",
+      "    pub fn remove_domain(mut self, x: &LTerm<U, E>) -> SResult<U, E> {",
+      "    pub fn clear_constraints(mut self) -> State<U, E> {\n        *self.cstore_to_mut() = ConstraintStore::new();\n        self\n    }\n\n    pub fn remove_domain(mut self, x: &LTerm<U, E>) -> SResult<U, E> {",
+      {"C22": "doorway"}),
+    M("c22-hook-after-insert", ["C22"], "src/state/mod.rs",
+      "        U::with_constraint(&mut self, &constraint);\n        let dropped = self.cstore_to_mut().push_and_normalize(constraint);",
+      "        let dropped = self.cstore_to_mut().push_and_normalize(constraint.clone());\n        U::with_constraint(&mut self, &constraint);",
+      {"C22": "pairing"}),
+    M("c22-take-hook-always", ["C22"], "src/state/mod.rs",
+      "            None => (self, None),\n        }\n    }\n\n    /// Adds a new domain",
+      "            None => {\n                U::take_constraint(&mut self, constraint);\n                (self, None)\n            }\n        }\n    }\n\n    /// Adds a new domain",
+      {"C22": "pairing"}),
+    M("c22-drained-unaccounted", ["C22"], "src/state/constraint/store.rs",
+      "                    } else {\n                        dropped.push(storec);\n                    }",
+      "                    }",
+      {"C22": "drained-accounted"}),
+    M("c22-stage-order", ["C22"], "src/state/mod.rs",
+      """        self.process_extension_diseq(&extension)?
+            .process_extension_fd(&extension)?
+            .process_extension_user(&extension)""",
+      """        self.process_extension_user(&extension)?
+            .process_extension_diseq(&extension)?
+            .process_extension_fd(&extension)""",
+      {"C22": "extension-hook"}),
 ]
